@@ -403,6 +403,45 @@ func ruleR35(c *Ctx) {
 			}
 			return true
 		})
+		if subPath == "" && f.Obj != nil {
+			// the subscription arrives as a parameter: resolve it at the call / go sites
+			for i := 0; ; i++ {
+				pv := paramAt(f, i)
+				if pv == nil {
+					break
+				}
+				if e, ok := chanElem(pv.Type()); !ok || !isITrace(e) {
+					continue
+				}
+				for _, h := range p.Funcs {
+					hin := info(h)
+					inspectNoLit(h.Body, func(m ast.Node) bool {
+						call, ok := m.(*ast.CallExpr)
+						if !ok || callee(hin, call) != f.Obj || i >= len(call.Args) {
+							return true
+						}
+						id, ok := unparen(call.Args[i]).(*ast.Ident)
+						if !ok {
+							return true
+						}
+						lv := objOf(hin, id)
+						inspectNoLit(h.Body, func(z ast.Node) bool {
+							as, ok := z.(*ast.AssignStmt)
+							if !ok || len(as.Lhs) != 1 || len(as.Rhs) != 1 {
+								return true
+							}
+							if lid, ok := unparen(as.Lhs[0]).(*ast.Ident); ok && objOf(hin, lid) == lv {
+								if sc, ok := unparen(as.Rhs[0]).(*ast.CallExpr); ok && isTracerMethod(hin, sc, "Subscribe") {
+									subPath = res.pathOf(h, unparen(sc.Fun).(*ast.SelectorExpr).X)
+								}
+							}
+							return true
+						})
+						return true
+					})
+				}
+			}
+		}
 		if subPath == "" {
 			continue
 		}
